@@ -136,13 +136,13 @@ end Gk.Mon
 namespace Gk.Mon
 open Gk
 
-/-- C11 on one observed `Find`. `dump` = the implementation's own content, insertion order
-(= created-at order under a non-decreasing clock). For the SQL repository members of an
+/-- C11 on one observed `Find`. `dump` = the implementation's own content, insertion order;
+the listing order demanded is oldest-created first, insertion order among equal creation times. For the SQL repository members of an
 equal-created_at group may permute, so only the created_at sequence, membership, matching and
 distinctness are demanded there. -/
 def c11 (dump : List Task) (exactOrder : Bool) (q : Query) (offset limit : Int) (out : Out) : List String :=
   let pred := (q.normalize true).matches
-  let expect := findLoop pred dump offset limit
+  let expect := findLoop pred (byCreated dump) offset limit
   match out with
   | .tasks r =>
     if exactOrder then (if r == expect then [] else
